@@ -11,7 +11,7 @@
    demotes) or what a delete selects. *)
 From Coq Require Import List ZArith Bool.
 From Coq.Init Require Import Byte.
-From Sif Require Import Bytes Store Format Image Machine Inv Reach Crash CrashOps.
+From Sif Require Import Bytes Store Format Image Machine Inv Reach Crash CrashOps CrashBoundary.
 Import ListNotations.
 Local Open Scope Z_scope.
 
@@ -32,6 +32,25 @@ Theorem C09_interrupted_operation_keeps_bystanders :
       nread (Z.to_nat (d_off d)) (Z.to_nat (d_size d)) st_c =
       nread (Z.to_nat (d_off d)) (Z.to_nat (d_size d)) (f_bytes (s_io s)).
 Proof. exact interrupted_operation_keeps_bystanders. Qed.
+
+(* When the interruption falls between two storage calls of an accepted
+   AddObject (any k calls carried out), the file loads and the object being
+   added is either absent - its slot is still the unused slot it was - or
+   completely present: its descriptor is in the table and all its bytes are in
+   the file. *)
+Theorem C09_added_object_absent_or_complete :
+  forall sha256, (forall c, length (sha256 c) = 32%nat) ->
+  forall s di o now m' evs k,
+  Inv s -> wf_op s (OpAdd di o now) ->
+  plan_add sha256 (s_mem s) di o now = (m', Ok, evs) ->
+  let st_c := f_bytes (file_run (firstn k evs) (s_io s)) in
+  let i := first_unused (m_rds (s_mem s)) in
+  exists mc, load_image st_c = inl mc /\
+    ((exists slot, nth_error (m_rds (s_mem s)) i = Some slot /\ d_used slot = false /\
+                   nth_error (m_rds mc) i = Some slot) \/
+     (exists d, nth_error (m_rds m') i = Some d /\ d_used d = true /\ nth_error (m_rds mc) i = Some d /\
+                nread (Z.to_nat (d_off d)) (Z.to_nat (d_size d)) st_c = di_content di)).
+Proof. exact add_interrupted_between_calls. Qed.
 
 (* the structure behind it: the calls of every operation are data calls that
    stay away from the header, the table and every bystander's bytes, followed
@@ -59,5 +78,6 @@ Theorem C09_preservation_principle :
 Proof. exact keeps_crash. Qed.
 
 Print Assumptions C09_interrupted_operation_keeps_bystanders.
+Print Assumptions C09_added_object_absent_or_complete.
 Print Assumptions C09_operation_calls.
 Print Assumptions C09_preservation_principle.
